@@ -304,6 +304,25 @@ impl Family for TFeeFam {
                 ctx.tag("err");
             }
         }
+        // C20: the SDK's transfer-fee functions (used by its swap / liquidity quotes) against the program's result for the
+        // fee in effect (without a newer fee from a future epoch the fee in effect is (bps, max))
+        if !fut {
+            use orca_whirlpools_core as sdk;
+            let tf = sdk::TransferFee { fee_bps: bps as u16, max_fee: max };
+            let s: Result<u64, String> = std::panic::catch_unwind(|| if inc { sdk::try_reverse_apply_transfer_fee(amt, tf) } else { sdk::try_apply_transfer_fee(amt, tf) }.map_err(|e| e.to_string()))
+                .unwrap_or_else(|_| Err("Panic".to_string()));
+            match (&a, &s) {
+                (Ok((v, _)), Ok(sv)) => {
+                    if v != sv {
+                        ctx.viol(format!("C20/C16 transfer fee ({} bps, max {}) {} of {}: program {} but SDK {}", bps, max, if inc { "included amount" } else { "excluded amount" }, amt, v, sv));
+                    }
+                    ctx.tag("sdk-tfee-compared");
+                }
+                (Ok((v, _)), Err(e)) => ctx.viol(format!("C20/C16 transfer fee: program gives {} but the SDK fails ({})", v, e)),
+                (Err(pe), Ok(sv)) => ctx.viol(format!("C20/C16 transfer fee: program fails ({}) but the SDK gives {}", pe, sv)),
+                (Err(_), Err(_)) => ctx.tag("sdk-tfee-both-err"),
+            }
+        }
         match a {
             Ok((v, f)) => format!("ok {} {}", v, f),
             Err(e) => format!("err {}", e),
